@@ -142,6 +142,29 @@ def ad_indices(ad, d):
     raise ValueError(ad)
 
 
+def cov_to_mellon_ops(t):
+    """The same expression tree built the way users write it: with the `+`, `*`, `**` operators (scalars on the
+    left or on the right, chosen by the tree so that a case replays), the node's own active_dims assigned afterwards."""
+    k = t[0]
+    if k in LEAVES:
+        return cov_to_mellon(t)
+    a = cov_to_mellon_ops(t[1])
+    if k in ("ADD", "MUL"):
+        b = cov_to_mellon_ops(t[2])
+        c = a + b if k == "ADD" else a * b
+    else:
+        v = float(t[2])
+        left = int(abs(v) * 1e6) % 2 == 1
+        if k == "ADDC":
+            c = (v + a) if left else (a + v)
+        elif k == "MULC":
+            c = (v * a) if left else (a * v)
+        else:
+            c = a ** v
+    c.active_dims = ad_to_py(t[3])
+    return c
+
+
 def cov_to_mellon(t):
     m = mellon()
     k = t[0]
